@@ -14,8 +14,8 @@ UNIT = dict(
             ("sub", "R9-paths", r"broadcast::channel\(1\)", "channel(1)", 1),
             ("inject", r"requests\.insert\(key, tx\);", "after", "proof { tr.unguarded = tr.unguarded + 1; }"),
         ]),
-        "InFlight::complete": dict(rules=[LOCKMAP, ("addarg", ["send"], TR, 1), ("inject", None, "end", "proof { tr.removed = tr.removed + 1; }")]),
-        "InFlight::cancel": dict(rules=[LOCKMAP, ("inject", None, "end", "proof { tr.removed = tr.removed + 1; }")]),
+        "InFlight::complete": dict(rules=[LOCKMAP, ("addarg", ["send"], TR, 1), ("inject", None, "end", "proof { tr.removed = tr.removed + 1; if tr.unguarded > 0 { tr.unguarded = (tr.unguarded - 1) as nat; } }")]),
+        "InFlight::cancel": dict(rules=[LOCKMAP, ("inject", None, "end", "proof { tr.removed = tr.removed + 1; if tr.unguarded > 0 { tr.unguarded = (tr.unguarded - 1) as nat; } }")]),
         "CoalesceService::clone@Clone": dict(),
         "CoalesceService::poll_ready@Service": dict(rules=[("R10p", "CoalesceError::Service")]),
         "CoalesceService::call@Service": dict(rules=[
@@ -26,12 +26,14 @@ UNIT = dict(
         "CoalesceFuture::poll@Future": dict(skip_sig_check=True, rules=[
             ("sub", "R13-pin", r"let this = unsafe \{ self\.get_unchecked_mut\(\) \};", "let this = self;", 1),
             ("sub", "R13-pin", r"future\.as_mut\(\)\.poll\(cx\)", "future.poll(cx, Tracked(tr))", 1),
+            ("sub", "ledger-take", r"\bkey\.take\(\)", "vx_take_key(key, Tracked(tr))", -1),
             ("sub", "R8-lock", r"in_flight\.complete\(", "vx_lock(in_flight).complete(", 1),
             ("addarg", ["complete"], TR, 1),
             ("sub", "R9-paths", r"broadcast::error::TryRecvError::", "TryRecvError::", 3),
             ("R10e", 2),
         ]),
         "CoalesceFuture::drop@Drop": dict(rules=[
+            ("sub", "ledger-take", r"\bkey\.take\(\)", "vx_take_key(key, Tracked(tr))", -1),
             ("sub", "R8-lock", r"in_flight\.cancel\(", "vx_lock(in_flight).cancel(", 1),
             ("addarg", ["cancel"], TR, 1),
         ]),
